@@ -50,7 +50,8 @@ type annot struct {
 	typ  string
 }
 
-// annotations: "Message.field" -> kind (and embedded type)
+// annotations: "Message.field" -> kind (and embedded type; for a ciphertext kind: the type of the
+// message that is the plaintext, "" = opaque bytes)
 var annotations = map[string]annot{
 	// consensus / acl envelope
 	"RawRecordWithId.payload":     {"emb", "RawRecord"},
@@ -64,7 +65,7 @@ var annotations = map[string]annot{
 	"Record.data":                 {"emb", "AclData"},
 	// acl contents
 	"AclAccountInvite.inviteKey":                    {"key_pub", ""},
-	"AclAccountInvite.encryptedReadKey":             {"ct_x25519", ""},
+	"AclAccountInvite.encryptedReadKey":             {"ct_x25519", "Key"},
 	"AclAccountInviteChange.inviteRecordId":         {"id", ""},
 	"AclOwnershipChange.newOwnerIdentity":           {"key_pub", ""},
 	"AclAccountRequestJoin.inviteIdentity":          {"key_pub", ""},
@@ -73,30 +74,38 @@ var annotations = map[string]annot{
 	"AclAccountInviteJoin.identity":                 {"key_pub", ""},
 	"AclAccountInviteJoin.inviteRecordId":           {"id", ""},
 	"AclAccountInviteJoin.inviteIdentitySignature":  {"sig", ""},
-	"AclAccountInviteJoin.encryptedReadKey":         {"ct_x25519", ""},
+	"AclAccountInviteJoin.encryptedReadKey":         {"ct_x25519", "Key"},
 	"AclAccountRequestAccept.identity":              {"key_pub", ""},
 	"AclAccountRequestAccept.requestRecordId":       {"id", ""},
-	"AclAccountRequestAccept.encryptedReadKey":      {"ct_x25519", ""},
+	"AclAccountRequestAccept.encryptedReadKey":      {"ct_x25519", "Key"},
 	"AclAccountRequestDecline.requestRecordId":      {"id", ""},
 	"AclAccountInviteRevoke.inviteRecordId":         {"id", ""},
 	"AclAccountRequestCancel.recordId":              {"id", ""},
 	"AclEncryptedReadKey.identity":                  {"key_pub", ""},
-	"AclEncryptedReadKey.encryptedReadKey":          {"ct_x25519", ""},
+	"AclEncryptedReadKey.encryptedReadKey":          {"ct_x25519", "Key"},
 	"AclAccountAdd.identity":                        {"key_pub", ""},
-	"AclAccountAdd.encryptedReadKey":                {"ct_x25519", ""},
+	"AclAccountAdd.encryptedReadKey":                {"ct_x25519", "Key"},
 	"AclAccountPermissionChange.identity":           {"key_pub", ""},
 	"AclReadKeyChange.metadataPubKey":               {"key_pub", ""},
-	"AclReadKeyChange.encryptedMetadataPrivKey":     {"ct_aes", ""},
-	"AclReadKeyChange.encryptedOldReadKey":          {"ct_aes", ""},
+	"AclReadKeyChange.encryptedMetadataPrivKey":     {"ct_aes", "Key"},
+	"AclReadKeyChange.encryptedOldReadKey":          {"ct_aes", "Key"},
 	"AclAccountRemove.identities":                   {"key_pub", ""},
 	"AclRoot.identity":                              {"key_pub", ""},
 	"AclRoot.masterKey":                             {"key_pub", ""},
-	"AclRoot.encryptedReadKey":                      {"ct_x25519", ""},
+	"AclRoot.encryptedReadKey":                      {"ct_x25519", "Key"},
 	"AclRoot.identitySignature":                     {"sig", ""},
 	"AclRoot.metadataPubKey":                        {"key_pub", ""},
-	"AclRoot.encryptedMetadataPrivKey":              {"ct_aes", ""},
+	"AclRoot.encryptedMetadataPrivKey":              {"ct_aes", "Key"},
 	"AclOneToOneInfo.owner":                         {"key_pub", ""},
 	"AclOneToOneInfo.writers":                       {"key_pub", ""},
+	// metadata: opaque bytes sealed for the space's metadata key
+	"AclAccountAdd.metadata":         {"ct_x25519", ""},
+	"AclAccountRequestJoin.metadata": {"ct_x25519", ""},
+	"AclAccountInviteJoin.metadata":  {"ct_x25519", ""},
+	"AclRoot.encryptedOwnerMetadata": {"ct_x25519", ""},
+	// the key blob that travels inside the encrypted key fields
+	"Key.Type": {"keytype", ""},
+	"Key.Data": {"keydata", ""},
 	// trees
 	"RawTreeChangeWithId.rawChange":     {"emb", "RawTreeChange"},
 	"RawTreeChangeWithId.id":            {"cid", ""},
